@@ -15,6 +15,8 @@ def norm(line):
     s = re.sub(r'\[K, V\]', '', s)
     s = re.sub(r'\[V\]', '', s)
     s = re.sub(r'Of\b', '', s)
+    s = re.sub(r'Of\(', '(', s)
+    s = re.sub(r': K ::', ': string ::', s)
     s = re.sub(r'\s+', ' ', s).strip()
     return s
 
